@@ -105,6 +105,28 @@ def noise_payload(case, seed_bytes):
     return case.bytes[:off + 4] + noise + case.bytes[off + ln:]
 
 
+def damaged_data_sections(case):
+    """[(class, bytes)]: the message with its data section -- and nothing else -- damaged.  Besides the payload noise: the
+    whole section overwritten, its own length octets included, in such a way that the declared section length stays
+    between the 4 header octets and the octets that are there (a metadata-only decode steps over the section by that
+    length, so a length outside this range is a framing error, not damaged data)."""
+    off, ln = case.info['offsets'][4], case.info['lengths'][4]
+    b = case.bytes
+    h = hashlib.sha256(b[:40] + b'#').digest()
+    res = [('noise_in_data_section', noise_payload(case, b[:40]))]
+    noise = (h * (ln // 32 + 1))[:ln]
+    shorter = 4 + int.from_bytes(h[:4], 'big') % max(1, ln - 3)           # 4 .. ln
+    res.append(('data_section_overwritten_shorter_length', b[:off] + shorter.to_bytes(3, 'big') + noise[3:] + b[off + ln:]))
+    res.append(('data_section_length_4', b[:off] + (b'\x00\x00\x04\x00' * (ln // 4 + 1))[:ln] + b[off + ln:]))
+    if ln > 4:
+        cleared = ln & (ln - 1)
+        if cleared >= 4:
+            res.append(('data_section_length_bit_cleared', b[:off] + cleared.to_bytes(3, 'big') + b[off + 3:]))
+    longer = ln + 1 + h[4] % 4                                             # up to the end of the stop signature
+    res.append(('data_section_longer_length', b[:off] + longer.to_bytes(3, 'big') + noise[3:] + b[off + ln:]))
+    return res
+
+
 def check_case(case):
     out = Outcome()
     meta = case.meta
@@ -169,16 +191,17 @@ def check_case(case):
             out.fail('malformed metadata expression rejected with %s instead of the metadata-parsing error' % q.exc_type,
                      expr=expr, error=q.msg)
     # data section damaged: info-only must still succeed with the same metadata
-    noisy = noise_payload(case, case.bytes[:40])
-    if noisy != case.bytes:
-        out.classes.append('noise_in_data_section')
-    for kw in ({}, {'ignore_value_expectation': True}):
-        on = sut.call(decoder().process, noisy, info_only=True, **kw)
-        if not on.ok:
-            out.fail('info-only decode of a message with damaged data raised %s@%s' % (on.exc_type, on.frame),
-                     error=on.msg, flags=sorted(kw))
-        elif md_observation(on.value) != md_observation(full):
-            out.fail('info-only decode of a message with damaged data gives other metadata', flags=sorted(kw))
+    for cls, noisy in damaged_data_sections(case):
+        if noisy == case.bytes:
+            continue
+        out.classes.append(cls)
+        for kw in ({}, {'ignore_value_expectation': True}):
+            on = sut.call(decoder().process, noisy, info_only=True, **kw)
+            if not on.ok:
+                out.fail('info-only decode of a message with damaged data raised %s@%s' % (on.exc_type, on.frame),
+                         error=on.msg, flags=sorted(kw), damage=cls)
+            elif md_observation(on.value) != md_observation(full):
+                out.fail('info-only decode of a message with damaged data gives other metadata', flags=sorted(kw), damage=cls)
     return out
 
 
@@ -298,6 +321,7 @@ def run(tier, seed):
     n = 800 if tier == 'quick' else 8000
     runner.run_generated(rep, lambda ch: gen_stream(ch, opts), check_stream, n, workers, stage='info-only streams')
     rep.required_classes = ['edition2', 'edition3', 'edition4', 'section2', 'no_section2', 'noise_in_data_section',
+                            'data_section_overwritten_shorter_length', 'data_section_length_4', 'data_section_longer_length',
                             'info_stream_declared_longer', 'info_stream_noisy']
     rep.extra['queries_per_message'] = 2 * len(ALL_NAMES) * (len(INDICES) + 1)
     fuzz.run_structured(rep, 'checks.c17', _fuzz_gen, tier)
